@@ -15,7 +15,7 @@ check `folded·inv_vanishing = quotient`; the LogUp terminal-sum check). Proof e
   arity schedule / query grinding / query indices), all 0.6.3.
 * `circuitUni`, `circuitBatch` — transcribed from `recursion/src/verifier/stark.rs`
   (`verify_p3_uni_proof_circuit`, `get_circuit_challenges`, `validate_proof_shape`,
-  `StarkChallenges::allocate`, `OpenedValuesTargetsWithLookups::observe`),
+  `StarkChallenges::allocate`; opened values through the batch routine `observe_opened_values_circuit`),
   `verifier/batch_stark.rs` (`verify_batch_circuit`, `get_perm_challenges`,
   `observe_opened_values_circuit` with its `round_idx` / `mat_idx` / `flat_mat_idx` counters),
   `pcs/fri/targets.rs` (`get_challenges_circuit`, `verify_circuit`,
@@ -188,13 +188,18 @@ def mergeOpening (nrc ri mi : Nat) (o : Opening) (pi : Nat) : Opening :=
 def mergeMat (nrc ri : Nat) (m : Mat) (mi : Nat) : Mat :=
   { m with openings := m.openings.zipIdx.map fun op => mergeOpening nrc ri mi op.1 op.2 }
 
+/-- Random codewords of a round: `HidingFriPcs::commit_preprocessing` pads with zero columns instead
+of random ones, so the preprocessed round carries *empty* random vectors
+(`open_with_preprocessing`: `num_random_codewords = 0` at `PREPROCESSED_TRACE_IDX`). -/
+def roundNrc (nrc : Nat) (r : Round) : Nat := if r.com = Name.preCom then 0 else nrc
+
 def mergeRound (nrc : Nat) (r : Round) (ri : Nat) : Round :=
   { r with mats := r.mats.zipIdx.map fun mm => mergeMat nrc ri mm.1 mm.2 }
 
 /-- `HidingFriPcs::verify` / `merge_hiding_random_openings`: round `ri`, matrix `mi`, point `pi`
 gets the random opened values `friRand ri mi pi ·` appended. -/
 def mergeRandom (nrc : Nat) (rounds : List Round) : List Round :=
-  rounds.zipIdx.map fun rr => mergeRound nrc rr.1 rr.2
+  rounds.zipIdx.map fun rr => mergeRound (roundNrc nrc rr.1) rr.1 rr.2
 
 def observeMat (m : Mat) : List Ev := m.openings.flatMap fun o => o.values.map Ev.obs
 def observeRound (r : Round) : List Ev := r.mats.flatMap observeMat
@@ -308,9 +313,10 @@ def circuitObserveOpened (s : Shape) : List Ev :=
   let r3 := r2 + 1
   -- 4. preprocessed round: counter over the instances that have preprocessed columns
   let sec4 := if s.insts.any hasPre then
+      -- the random vectors found at `fri_random_rounds[r3][m][p]` are empty (zero-padded commitment)
       numberFrom 0 (idx.filter fun xi => hasPre xi.1) (fun xi m =>
-        observePoint s (preLocalNs xi.2 xi.1) r3 m 0 ++
-          (if xi.1.preNext then observePoint s (preNextNs xi.2 xi.1) r3 m 1 else []))
+        observePoint { s with nrc := 0 } (preLocalNs xi.2 xi.1) r3 m 0 ++
+          (if xi.1.preNext then observePoint { s with nrc := 0 } (preNextNs xi.2 xi.1) r3 m 1 else []))
     else []
   let r4 := if s.insts.any hasPre then r3 + 1 else r3
   -- 5. permutation round
@@ -428,11 +434,13 @@ def nativeUni (s : Shape) : Script :=
       ++ nativeFri s,
     checks := [Check.pcs merged (friElems s), Check.ood 0 (oodOperands s.D 0 x)] }
 
-/-- `validate_proof_shape` of the uni circuit: both next-row openings must have full width. -/
+/-- `validate_proof_shape` of the uni circuit: the preprocessed next-row opening must have full
+width. (The trace next-row opening is required only when the AIR opens the next row —
+`opens_trace_next`, fixes/C01-1 — and the prover produces it exactly then, so no shape of this
+model fails that test.) -/
 def circuitUniValidate (s : Shape) : Except String Unit :=
   let x := uniInst s
-  if !x.hasNext then .error "Expected opened_trace_local and opened_trace_next to have length"
-  else if hasPre x && !x.preNext then .error "Expected preprocessed width"
+  if hasPre x && !x.preNext then .error "Expected preprocessed width"
   else .ok ()
 
 def circuitUniRounds (s : Shape) : List Round :=
@@ -440,7 +448,9 @@ def circuitUniRounds (s : Shape) : List Round :=
   (if s.zk then [{ com := Name.randCom, mats := [{ logSize := x.degreeBits, openings := [⟨Pt.zeta, randNs s.D 0⟩] }] }] else [])
   ++ [{ com := Name.traceCom,
         mats := [{ logSize := x.degreeBits,
-                   openings := [⟨Pt.zeta, traceLocalNs 0 x⟩, ⟨Pt.zetaNext 0, traceNextNs 0 x⟩] }] }]
+                   -- the `zeta_next` point only when the AIR opens the next row (fixes/C01-1)
+                   openings := [⟨Pt.zeta, traceLocalNs 0 x⟩]
+                     ++ (if x.hasNext then [⟨Pt.zetaNext 0, traceNextNs 0 x⟩] else []) }] }]
   ++ [{ com := Name.quotCom,
         mats := (List.range x.nChunks).map fun c =>
           { logSize := x.degreeBits, openings := [⟨Pt.zeta, quotNs s.D 0 c⟩] } }]
@@ -450,14 +460,18 @@ def circuitUniRounds (s : Shape) : List Round :=
                     openings := [⟨Pt.zeta, preLocalNs 0 x⟩, ⟨Pt.zetaNext 0, preNextNs 0 x⟩] }] }]
     else [])
 
-/-- `OpenedValuesTargetsWithLookups::observe` as used by the uni circuit: the opened values in
-round order, *without* the hiding PCS's random opened values. -/
-def circuitUniObserveOpened (s : Shape) : List Ev :=
-  let x := uniInst s
-  (if s.zk then (randNs s.D 0).map Ev.obs else [])
-  ++ (traceLocalNs 0 x).map Ev.obs ++ (traceNextNs 0 x).map Ev.obs
-  ++ (List.range x.nChunks).flatMap (fun c => (quotNs s.D 0 c).map Ev.obs)
-  ++ (if hasPre x then (preLocalNs 0 x).map Ev.obs ++ (preNextNs 0 x).map Ev.obs else [])
+/-- The shape the uni circuit hands to the batch routine: the one instance, lookups disabled
+(`instances = [inst]`, `quotient_degrees = [number of chunk openings]`, `is_lookup = false`). -/
+def uniAsBatch (s : Shape) : Shape :=
+  { s with insts := [{ uniInst s with nLookups := 0 }] }
+
+/-- Opened-value observation of the uni circuit (`get_circuit_challenges`, since b026681):
+`observe_opened_values_circuit` of the batch verifier on the single instance, with
+`fri_random_rounds = get_fri_random_opened_values(opening_proof)` — so for the hiding PCS every
+(round, matrix, point) value vector is followed by its random vector, in the PCS round order
+[random (ZK), trace, quotient chunks, preprocessed]. (Before b026681 this was
+`OpenedValuesTargetsWithLookups::observe`, which has no random values: finding F-C01-4.) -/
+def circuitUniObserveOpened (s : Shape) : List Ev := circuitObserveOpened (uniAsBatch s)
 
 def circuitUni (s : Shape) : Except String Script := do
   circuitUniValidate s
@@ -540,21 +554,14 @@ def renderEvents (D dg logMaxH : Nat) (evs : List Ev) : List (Char × Nat) :=
     | some (c', n') => if c' = c ∧ (c = 'o' ∨ c = 's') then acc.dropLast ++ [(c, n' + n)] else acc ++ [(c, n)]
     | none => [(c, n)]) []
 
-/-! ### below script granularity: input-batch heights (L10, recorded here for the driver)
+/-! ### below script granularity: input-batch heights (L10) — record
 
 `p3_fri::verifier::open_input` verifies each input batch at `index >> (log_global_max_height −
-log_batch_max_height)`; the circuit's `open_input` hands the *unreduced* index bits to the MMCS
-gadget, which then expects a Merkle path of the global depth. A commitment round whose tallest
-matrix is shorter than the tallest matrix overall therefore cannot be fed the honest proof
-(`set_fri_mmcs_private_data`: "Fewer siblings in proof than op_ids provided"). The trace, quotient
-and random rounds contain every instance, so only the preprocessed and permutation rounds can be
-short. -/
-
-def maxDb (l : List Inst) : Nat := l.foldl (fun a x => max a x.degreeBits) 0
-
-def inputHeightsOK (s : Shape) : Bool :=
-  (!(s.insts.any hasPre) || maxDb (s.insts.filter hasPre) == maxDb s.insts)
-    && (!(s.insts.any hasLookup) || maxDb (s.insts.filter hasLookup) == maxDb s.insts)
+log_batch_max_height)`. Until 93b4a80 the circuit's `open_input` handed the unreduced index bits to
+the MMCS gadget, so a commitment round whose tallest matrix is shorter than the tallest matrix
+overall could not be fed the honest proof (finding F-C01-5, fixed). Now `batch_index_bits =
+index_bits[bits_reduced..]`; the script model never depended on it, and the driver predicts
+`accept` for such shapes (regression target `batch/*/short-pre`). -/
 
 /-- number of base-field scalars per element class, as they appear in the serialised proof -/
 def inventory (dg : Nat) (s : Shape) (rounds : List Round) : List (String × Nat) :=
